@@ -55,7 +55,7 @@ def case_key(path):
 
 
 class Job:
-    def __init__(self, binary, flavour, args=(), shards=NCPU, label=None, timeout=3600, kind='driver', replay_bin=None, replay_campaign=None, fallback_binary=None):
+    def __init__(self, binary, flavour, args=(), shards=NCPU, label=None, timeout=3600, kind='driver', replay_bin=None, replay_campaign=None, fallback_binary=None, rc=None, shrink_unit=1):
         self.binary, self.flavour, self.args, self.shards = binary, flavour, list(args), shards
         self.label = label or binary
         self.timeout = timeout
@@ -63,6 +63,8 @@ class Job:
         self.replay_bin = replay_bin or binary
         self.replay_campaign = replay_campaign
         self.fallback_binary = fallback_binary
+        self.rc = rc                    # (max_success, max_size) for a rapidcheck front-end job
+        self.shrink_unit = shrink_unit  # granularity of delta debugging on the case data
 
 
 def load_known(prop):
@@ -87,6 +89,65 @@ def merge_hashfiles(files):
         os.makedirs(vbuild.BUILD, exist_ok=True)
         subprocess.check_call(['clang++', '-O2', '-o', tool, src])
     return int(subprocess.check_output([tool] + files).split()[0])
+
+
+def shrink_case(path, j, prop, budget=160):
+    """Delta debugging (ddmin) on the data bytes of a failing case, then byte simplification; every
+    candidate is judged by replaying it through the driver.  Returns the path of the minimal case."""
+    c = read_case(path)
+    data = bytes.fromhex(c.get('data', ''))
+    if len(data) <= j.shrink_unit or c.get('note', '').startswith('(shrunk by rapidcheck)'):
+        return path
+    tmp = path + '.try'
+    calls = [0]
+
+    def fails(d):
+        if calls[0] >= budget:
+            return False
+        calls[0] += 1
+        with open(tmp, 'w') as f:
+            f.write('property: %s\ndriver: %s\ncampaign: %s\naux: %s\ndata: %s\nnote: shrinking candidate\n' % (prop, c.get('driver', ''), c.get('campaign', ''), c.get('aux', '0 0 0 0'), d.hex()))
+        try:
+            r = subprocess.run([vbuild.binpath(j.flavour, j.replay_bin), '--prop', prop, '--replay', tmp], stdout=subprocess.PIPE, stderr=subprocess.STDOUT, env=san_env(j.flavour), cwd=VERIF, timeout=120)
+            return r.returncode != 0
+        except subprocess.TimeoutExpired:
+            return False
+
+    u = j.shrink_unit
+    n = 2
+    while len(data) > u and calls[0] < budget:
+        units = len(data) // u
+        chunk = max(1, units // n)
+        removed = False
+        i = 0
+        while i < units and calls[0] < budget:
+            cand = data[:i * u] + data[(i + chunk) * u:]
+            if cand != data and fails(cand):
+                data = cand; units = len(data) // u; removed = True; n = max(n - 1, 2)
+            else:
+                i += chunk
+        if not removed:
+            if chunk == 1:
+                break
+            n = min(n * 2, units)
+    for i in range(len(data)):
+        if calls[0] >= budget:
+            break
+        if data[i] != 0 and i % u != 0:
+            cand = data[:i] + b'\x00' + data[i + 1:]
+            if fails(cand):
+                data = cand
+    try:
+        os.remove(tmp)
+    except OSError:
+        pass
+    if data.hex() == c.get('data', ''):
+        return path
+    out = path[:-5] + '.min.case' if path.endswith('.case') else path + '.min'
+    with open(out, 'w') as f:
+        f.write('property: %s\ndriver: %s\ncampaign: %s\naux: %s\ndata: %s\nnote: (shrunk by delta debugging from %s, %d replays) %s\n' % (
+            prop, c.get('driver', ''), c.get('campaign', ''), c.get('aux', '0 0 0 0'), data.hex(), os.path.basename(path), calls[0], c.get('note', '')))
+    return out
 
 
 def run_property(prop, spec, tier, seed, replay=None):
@@ -156,6 +217,8 @@ def run_property(prop, spec, tier, seed, replay=None):
             env['VERIF_SHARD'] = str(p['shard']); env['VERIF_SEED'] = str(seed); env['VERIF_TIER'] = tier
             env['VERIF_PROP'] = prop
             env['VERIF_WORK'] = work; env['VERIF_TAG'] = p['tag']
+            if p['job'].rc:
+                env['RC_PARAMS'] = 'seed=%d max_success=%d max_size=%d' % (seed * 1000 + p['shard'] + 1, p['job'].rc[0], p['job'].rc[1])
             p['log'] = open(os.path.join(work, 'log-%s.txt' % p['tag']), 'w')
             p['t0'] = time.time()
             p['popen'] = subprocess.Popen(p['cmd'], stdout=p['log'], stderr=subprocess.STDOUT, env=env, cwd=VERIF)
@@ -254,6 +317,8 @@ def run_property(prop, spec, tier, seed, replay=None):
         if hit:
             known_hits.append((path, hit[0][1]))
         else:
+            if len(violations) < 2:
+                path = shrink_case(path, j, prop)   # minimal reproduction becomes the replay file
             violations.append((path, how))
 
     wall = time.time() - t0
